@@ -192,7 +192,7 @@ def simple_cases(thorough):
                 tt = t or 1
                 preds = [('order', n * tt)]
                 if tt > 1:
-                    preds.append(('blocks_independent', n))
+                    preds.append(('balanced_multipartite', n, tt))
                 if float(p) == 0:
                     preds.append(('edges', 0))
                 if float(p) == 1:
